@@ -222,6 +222,19 @@ impl Scenario for HybridScenario {
         p
     }
 
+    fn warmup(&self) -> Option<Value> {
+        // the smallest query there is: two matched pairs on one shard
+        let mut p = json!({"shards": 1, "inst": "small", "reports": [[false, 5, 3], [true, 5, 2], [false, 9, 1], [true, 9, 4]], "assign": [0, 0, 0, 0],
+            "malicious": true, "padding": "none", "share_seed": 1, "knobs": {"active": 8, "read_size": 256, "world_seed": 1}, "dense": true, "node_tasks": false,
+            "sched": {"seed": 1, "policy": {"kind": "uniform"}, "max_steps": 60_000_000, "stack": 0x40000}});
+        if self.tampered {
+            p["corrupt"] = json!(1);
+            p["site_seed"] = json!(1);
+            p["replays"] = json!(1);
+        }
+        Some(p)
+    }
+
     fn exec(&self, p: &Value, explicit: Option<Vec<u32>>) -> RunRes {
         match (pu(p, "shards"), ps(p, "inst")) {
             (1, "prod") => exec_prod_1(p, explicit, self.tampered),
@@ -285,8 +298,11 @@ macro_rules! make_exec {
                     let padding = if relaxed { PaddingParameters::relaxed() } else { PaddingParameters::no_padding() };
                     if node_tasks {
                         // every (helper, shard) node is a task of its own, so that the scheduler also decides which node moves next
-                        // (the stock runner polls all nodes from one task in a fixed order); the world is leaked for 'static borrows
-                        let world: &'static TestWorld<WithShards<$n, PlanDistribute>> = Box::leak(Box::new(world));
+                        // (the stock runner polls all nodes from one task in a fixed order); the world is shared by reference counting (see SharedWorld)
+                        let keep = SharedWorld::new(world);
+                        // SAFETY: `keep` outlives every use in this task, and each node task holds its own clone (declared before, hence
+                        // dropped after, everything that borrows from the world)
+                        let world: &'static TestWorld<WithShards<$n, PlanDistribute>> = unsafe { keep.get() };
                         let mut per: Vec<Vec<Vec<IndistinguishableHybridReport<$bk, BA3>>>> = (0..3).map(|_| (0..$n).map(|_| Vec::new()).collect()).collect();
                         let [h0, h1, h2] = per_helper;
                         for (h, rows) in [h0, h1, h2].into_iter().enumerate() {
@@ -301,7 +317,10 @@ macro_rules! make_exec {
                                     for (sh, ctx) in v.into_iter().enumerate() {
                                         let rows = std::mem::take(&mut per[h][sh]);
                                         let log = StdArc::clone(&log);
+                                        let keep_node = keep.share();
                                         handles.push(shuttle::future::spawn(async move {
+                                            let _keep_node = keep_node;
+                                            let ctx = ctx;
                                             let key = (role_idx(ctx.role()), usize::from(ctx.shard_id()));
                                             let r = hybrid_protocol::<_, $bk, BA3, $hv, 3, $b>(ctx, rows, DpMechanism::NoDp, padding).await;
                                             let r: NodeRes = r.map(|v| v.iter().map(|s| (s.left().as_u128(), s.right().as_u128())).collect()).map_err(|e| e.to_string());
@@ -319,6 +338,7 @@ macro_rules! make_exec {
                         for h in handles {
                             h.await.unwrap();
                         }
+                        drop(keep);
                         return;
                     }
                     let log = &log;
